@@ -2,7 +2,9 @@
 // local-storage file system (clock files, cache files, lock file) scheduling points: under the
 // controlled scheduler every file operation below is a point at which another thread may run,
 // so races between an in-memory update and the file write that persists it are explored too.
-// Outside a controlled run vsync.IOPoint does nothing.
+// Outside a controlled run vsync.IOPoint does nothing. Mutating operations also consult
+// vsync.IOFault (nil unless a harness installed a hook): crash images / injected errors at every
+// file-system mutation of code that uses the local storage directly, such as OpenGoGitRepo.
 package repository
 
 import (
@@ -15,6 +17,9 @@ import (
 
 func (b billyLocalStorage) Create(filename string) (billy.File, error) {
 	vsync.IOPoint()
+	if err := vsync.IOFault("create", filename); err != nil {
+		return nil, err
+	}
 	return b.Filesystem.Create(filename)
 }
 
@@ -25,20 +30,34 @@ func (b billyLocalStorage) Open(filename string) (billy.File, error) {
 
 func (b billyLocalStorage) OpenFile(filename string, flag int, perm os.FileMode) (billy.File, error) {
 	vsync.IOPoint()
+	if flag&(os.O_WRONLY|os.O_RDWR|os.O_CREATE|os.O_TRUNC|os.O_APPEND) != 0 {
+		if err := vsync.IOFault("openfile", filename); err != nil {
+			return nil, err
+		}
+	}
 	return b.Filesystem.OpenFile(filename, flag, perm)
 }
 
 func (b billyLocalStorage) Rename(oldpath, newpath string) error {
 	vsync.IOPoint()
+	if err := vsync.IOFault("rename", newpath); err != nil {
+		return err
+	}
 	return b.Filesystem.Rename(oldpath, newpath)
 }
 
 func (b billyLocalStorage) Remove(filename string) error {
 	vsync.IOPoint()
+	if err := vsync.IOFault("remove", filename); err != nil {
+		return err
+	}
 	return b.Filesystem.Remove(filename)
 }
 
 func (b billyLocalStorage) TempFile(dir, prefix string) (billy.File, error) {
 	vsync.IOPoint()
+	if err := vsync.IOFault("tempfile", prefix); err != nil {
+		return nil, err
+	}
 	return b.Filesystem.TempFile(dir, prefix)
 }
